@@ -25,6 +25,9 @@ pub enum Action {
     /// in the same scheduling round (requests really in flight together)
     Hold,
     Release,
+    /// advance the (paused) clock by this many milliseconds: a slow but
+    /// progressing client
+    Tick(u64),
 }
 
 #[derive(Clone, Debug, PartialEq)]
@@ -48,6 +51,7 @@ impl Action {
             Action::Probe => json!(["probe"]),
             Action::Hold => json!(["hold"]),
             Action::Release => json!(["release"]),
+            Action::Tick(ms) => json!(["tick", ms]),
         }
     }
     pub fn from_json(v: &Value) -> Option<Action> {
@@ -65,13 +69,14 @@ impl Action {
             "probe" => Action::Probe,
             "hold" => Action::Hold,
             "release" => Action::Release,
+            "tick" => Action::Tick(c as u64),
             _ => return None,
         })
     }
     pub fn conn(&self) -> Option<usize> {
         match self {
             Action::Open(c) | Action::Deliver(c, _) | Action::Drain(c, _) | Action::DrainAll(c) | Action::HalfClose(c) | Action::Close(c) | Action::Reset(c) => Some(*c),
-            Action::Probe | Action::Hold | Action::Release => None,
+            Action::Probe | Action::Hold | Action::Release | Action::Tick(_) => None,
         }
     }
     pub fn is_fault(&self) -> bool {
@@ -132,21 +137,42 @@ pub struct RunGen<'a> {
 }
 
 fn extra_headers(rng: &mut Rng) -> Vec<(String, String)> {
+    // None of these may change the answer: the contract is a function of the body.
+    const POOL: &[(&str, &[&str])] = &[
+        ("Content-Type", &["text/plain", "application/json", "application/octet-stream", "text/plain; charset=utf-8", "text/plain; charset=iso-8859-1", "text/plain; charset=utf-16", "application/x-www-form-urlencoded", "multipart/form-data; boundary=x", "image/svg+xml"]),
+        ("Accept", &["*/*", "image/svg+xml", "text/html", "application/json", "text/plain;q=0.9, */*;q=0.1"]),
+        ("Accept-Encoding", &["gzip, br", "identity", "deflate", "*"]),
+        ("Content-Encoding", &["identity"]),
+        ("User-Agent", &["sim/1.0", "curl/8.0", "Mozilla/5.0"]),
+        ("Connection", &["keep-alive"]),
+        ("X-Forwarded-For", &["10.0.0.1", "::1"]),
+        ("X-Forwarded-Proto", &["https"]),
+        ("Origin", &["http://evil.invalid", "null"]),
+        ("Referer", &["http://sim.invalid/page"]),
+        ("Range", &["bytes=0-9", "bytes=100-"]),
+        ("If-None-Match", &["*", "\"abc\""]),
+        ("If-Modified-Since", &["Wed, 21 Oct 2015 07:28:00 GMT"]),
+        ("Cache-Control", &["no-cache", "max-age=0"]),
+        ("Cookie", &["session=1"]),
+        ("Authorization", &["Bearer x"]),
+        ("Accept-Language", &["de", "en-US,en;q=0.5"]),
+        ("X-Requested-With", &["XMLHttpRequest"]),
+        ("Pragma", &["no-cache"]),
+        ("TE", &["trailers"]),
+        ("Upgrade-Insecure-Requests", &["1"]),
+        ("DNT", &["1"]),
+    ];
     let mut h = vec![];
-    if rng.chance(1, 3) {
-        h.push(("Content-Type".to_string(), rng.pick(&["text/plain", "application/json", "application/octet-stream", "text/plain; charset=utf-8"]).to_string()));
-    }
-    if rng.chance(1, 5) {
-        h.push(("Accept".to_string(), rng.pick(&["*/*", "image/svg+xml", "text/html"]).to_string()));
-    }
-    if rng.chance(1, 6) {
-        h.push(("User-Agent".to_string(), "sim/1.0".to_string()));
-    }
-    if rng.chance(1, 12) {
-        h.push(("Connection".to_string(), "keep-alive".to_string()));
-    }
-    if rng.chance(1, 20) {
-        h.push(("Accept-Encoding".to_string(), "gzip, br".to_string()));
+    let n = match rng.below(10) {
+        0..=3 => 0,
+        4..=7 => rng.urange(1, 3),
+        _ => rng.urange(3, 8),
+    };
+    for _ in 0..n {
+        let (k, vs) = rng.pick(POOL);
+        if !h.iter().any(|(hk, _): &(String, String)| hk == k) {
+            h.push((k.to_string(), rng.pick(vs).to_string()));
+        }
     }
     h
 }
@@ -204,7 +230,19 @@ impl<'a> RunGen<'a> {
                 gen::sibling(rng, &base)
             }
             10 => String::new(),
-            11 => rng.pick(gen::HOSTILE).to_string(),
+            11 => match rng.below(6) {
+                0 => rng.pick(gen::HOSTILE).to_string(),
+                1 => format!("text={}&x=1", rng.pick(&["%2B--%2B", "+--+", "a%0Ab"])),
+                2 => format!("{{\"text\": \"+--+\\n|  |\\n+--+\", \"n\": {}}}", rng.below(100)),
+                3 => format!("+-\0-+\n|{}|\n", rng.below(10)),
+                4 => "\u{feff}+--+\r\n|  |\r\n+--+\r\n".to_string(),
+                _ => "  \n\n\t\n".to_string(),
+            },
+            14 if rng.chance(1, 3) => {
+                // larger than typical internal thresholds (64 KiB), cheap to convert
+                let (t, _) = gen::gen_input(rng, self.pool, mask);
+                gen::pad_to(&t, *rng.pick(&[65_535usize, 65_536, 65_537, 131_073, 300_000]))
+            }
             12 => {
                 // non-ASCII text: multi-byte characters that segment boundaries can cut
                 let (t, _) = gen::gen_input(rng, self.pool, GenMask(gen::G_UNICODE | gen::G_TEXT));
@@ -363,7 +401,7 @@ impl<'a> RunGen<'a> {
             match kind {
                 // keep-alive histories of one request kind, a few dozen per connection
                 0..=3 => {
-                    let per = rng.urange(8, 60).min(n_events - made);
+                    let per = if rng.chance(1, 4) { n_events - made } else { rng.urange(8, 60).min(n_events - made) };
                     for i in 0..per {
                         let r = if rng.chance(1, 10) {
                             get("/")
@@ -548,7 +586,7 @@ impl<'a> RunGen<'a> {
             per_conn.push(acts);
         }
         // random merge preserving per-connection order
-        let mut actions = vec![];
+        let mut actions: Vec<Action> = vec![];
         let mut pos = vec![0usize; n_conns];
         let burst = rng.chance(1, 4); // open everything first
         if burst {
@@ -577,14 +615,30 @@ impl<'a> RunGen<'a> {
                 }
             }
         }
+        // slow clients: in some runs time passes between deliveries (at most a few
+        // seconds in total, far below any sane server-side timeout)
+        if rng.chance(1, 5) {
+            let mut out = vec![];
+            let mut budget_ms = 8_000u64;
+            for a in actions {
+                let is_deliver = matches!(a, Action::Deliver(..));
+                out.push(a);
+                if is_deliver && budget_ms > 0 && rng.chance(1, 4) {
+                    let ms = rng.range(50, 900).min(budget_ms);
+                    budget_ms -= ms;
+                    out.push(Action::Tick(ms));
+                }
+            }
+            actions = out;
+        }
         // batches: some windows of consecutive actions reach the server together
         if rng.chance(2, 5) {
             let mut out = vec![];
             let mut i = 0;
             while i < actions.len() {
-                if rng.chance(1, 6) && !matches!(actions[i], Action::Probe) {
+                if rng.chance(1, 6) && !matches!(actions[i], Action::Probe | Action::Tick(_)) {
                     let k = rng.urange(2, 5).min(actions.len() - i);
-                    if actions[i..i + k].iter().all(|a| !matches!(a, Action::Probe)) {
+                    if actions[i..i + k].iter().all(|a| !matches!(a, Action::Probe | Action::Tick(_))) {
                         out.push(Action::Hold);
                         out.extend(actions[i..i + k].iter().cloned());
                         out.push(Action::Release);
